@@ -2,7 +2,7 @@
 \* Composition: real-client models (MailboxClient) + mailbox server (MailboxServer) + per-connection
 \* FIFO network + application drivers + outsiders/adversary.  One environment action = one reactor
 \* event of the implementation; the client's whole synchronous cascade is one step (Run).
-EXTENDS MailboxClient, MailboxServer, SequencesExt
+EXTENDS MailboxClient, MailboxServer, MailboxProps
 
 CONSTANTS Clients,          \* client names; a client's side string is its name
           Mode,             \* [Clients -> {"deferred","delegated"}]
@@ -10,8 +10,9 @@ CONSTANTS Clients,          \* client names; a client's side string is its name
           CodeChoices,      \* [Clients -> set of <<nameplate, words>>] the codes set_code may be given
           AllowAllocate,    \* set of clients that may call allocate_code
           AllowInput,       \* set of clients that may call input_code
-          MaxSend,          \* send_message calls per client
-          MaxDrops,         \* connection losses per client
+          MaxSend,          \* [Clients -> Nat] send_message calls per client
+          MaxDrops,         \* [Clients -> Nat] connection losses per client
+          AllowClose,       \* clients whose application may call close()
           MaxDup,           \* duplicated message deliveries (total)
           MaxSwap,          \* reorderings of adjacent message frames (total)
           MaxInject,        \* messages added by an outsider / fabricated by the server (total)
@@ -32,9 +33,11 @@ Init ==
   /\ cs  = [c \in Clients |-> ClientInit(c, Mode[c], AppId[c])]
   /\ srv = SrvInit
   /\ net = [c \in Clients |-> DownConn]
-  /\ bud = [drops |-> [c \in Clients |-> MaxDrops], dup |-> MaxDup, swap |-> MaxSwap, inject |-> MaxInject,
+  /\ bud = [drops |-> MaxDrops, dup |-> MaxDup, swap |-> MaxSwap, inject |-> MaxInject,
             tamper |-> MaxTamper, sends |-> [c \in Clients |-> 0], dead |-> [c \in Clients |-> FALSE],
-            closeCalled |-> [c \in Clients |-> FALSE], codeCalls |-> [c \in Clients |-> 0], welcomeErr |-> FALSE]
+            closeCalled |-> [c \in Clients |-> FALSE], codeCalls |-> [c \in Clients |-> 0],
+            cause |-> [c \in Clients |-> "-"], peerSeen |-> [c \in Clients |-> FALSE], seenAtCause |-> [c \in Clients |-> FALSE],
+            badSeen |-> [c \in Clients |-> FALSE], srvErrSeen |-> [c \in Clients |-> FALSE], welErrSeen |-> [c \in Clients |-> FALSE]]
   /\ lastAct = Act("Init", "-", "-", "-")
 
 \* after a client cascade: frames it transmitted go onto its connection, towards the server
@@ -106,7 +109,7 @@ AppHelper(c, h) ==
   /\ UNCHANGED <<srv, bud>>
 
 AppSend(c) ==
-  /\ CanApi(c) /\ bud.sends[c] < MaxSend
+  /\ CanApi(c) /\ bud.sends[c] < MaxSend[c]
   /\ ApiStep(c, <<In("B", "send", Args("m:" \o c \o ":" \o ToString(bud.sends[c]), "-", NoBody))>>)
   /\ bud' = [bud EXCEPT !.sends[c] = @ + 1]
   /\ lastAct' = Act("AppSend", c, "-", "-")
@@ -114,11 +117,13 @@ AppSend(c) ==
 
 \* _DeferredWormhole.close(): calls Boss.close() unless closed() was already delivered
 AppClose(c) ==
-  /\ ~bud.closeCalled[c]
+  /\ ~bud.closeCalled[c] /\ c \in AllowClose
   /\ IF cs[c].mode = "deferred" /\ cs[c].closedCalls > 0
      THEN cs' = cs /\ net' = net
      ELSE ApiStep(c, <<In("B", "close", NoArgs)>>)
-  /\ bud' = [bud EXCEPT !.closeCalled[c] = TRUE]
+  /\ bud' = [bud EXCEPT !.closeCalled[c] = TRUE,
+                        !.cause[c] = IF @ = "-" THEN "app" ELSE @,
+                        !.seenAtCause[c] = IF bud.cause[c] = "-" THEN bud.peerSeen[c] ELSE @]
   /\ lastAct' = Act("AppClose", c, "-", "-")
   /\ UNCHANGED srv
 
@@ -160,7 +165,7 @@ ServeAll(s, n, c, alloc) ==
   IF n[c].c2s = <<>> THEN [srv |-> s, net |-> n]
   ELSE LET r == Handle(s, [n EXCEPT ![c].c2s = Tail(@)], c, Head(n[c].c2s), alloc) IN ServeAll(r.srv, r.net, c, alloc)
 
-AllocChoice == CHOOSE n \in Nameplates : TRUE
+AllocChoice == "4"      \* the nameplate the server hands out for `allocate` (harness: server.alloc_nameplate)
 
 \* RC.stop() asked the transport to close: pending writes are flushed, then the connection is lost;
 \* ws_close runs, then ClientService's stop Deferred fires -> Terminator.stoppedRC
@@ -202,7 +207,15 @@ DeliverFrame(c, late) ==
          n1 == [net EXCEPT ![c].s2c = Tail(@)] IN
      ClientStep(c, cs[c], RxFrames(fr), TRUE, n1)
   /\ lastAct' = Act(IF late THEN "LateDeliver" ELSE "Deliver", c, Head(net[c].s2c).t, Head(net[c].s2c).y)
-  /\ UNCHANGED <<srv, bud>>
+  /\ LET fr == Head(net[c].s2c)
+         peerMsg == fr.t = "message" /\ fr.x # c
+         good == peerMsg /\ fr.y # "pake" /\ cs[c].rkey # "-" /\ Decrypts(cs[c].rkey, fr.x, fr.y, fr.z)
+         bad  == peerMsg /\ ~good /\ ~(fr.y = "pake" /\ fr.z.k = "pake")
+         trig == CASE fr.t = "welcome" /\ fr.x = "error" -> "welcome" [] fr.t = "error" -> "server" [] OTHER -> "-" IN
+     bud' = [bud EXCEPT !.peerSeen[c] = @ \/ good, !.badSeen[c] = @ \/ bad \/ (peerMsg /\ fr.y = "pake" /\ fr.z.key # cs[c].pwapp),
+                        !.srvErrSeen[c] = @ \/ fr.t = "error", !.welErrSeen[c] = @ \/ (fr.t = "welcome" /\ fr.x = "error"),
+                        !.cause[c] = IF @ = "-" /\ trig # "-" THEN trig ELSE @]
+  /\ UNCHANGED srv
 
 \* ---------------------------------------------------------------- conformant-but-unhelpful server ---
 \* a stored message is delivered once more to a listener
@@ -267,54 +280,58 @@ Progress(c) == ConnOpen(c, FALSE) \/ CloseDone(c) \/ Serve(c) \/ DeliverFrame(c,
 FairSpec == Spec /\ \A c \in Clients : WF_vars(Progress(c))
 
 \* ================================================================== properties ======================
-EventKinds(c) == [i \in 1..Len(cs[c].events) |-> cs[c].events[i].k]
-EventsOf(c, k) == SelectSeq(cs[c].events, LAMBDA e : e.k = k)
-Count1(c, k) == Len(EventsOf(c, k))
-Msgs(c) == [i \in 1..Len(EventsOf(c, "message")) |-> EventsOf(c, "message")[i].v]
+\* (the operators are those of MailboxProps, applied to the model's observable state)
+Ev(c) == cs[c].events
 Peer(c) == CHOOSE d \in Clients : d # c
 SentBy(c) == [i \in 1..bud.sends[c] |-> "m:" \o c \o ":" \o ToString(i - 1)]
-ClosedResult(c) == EventsOf(c, "closed")[1].v
+Msgs(c) == ValuesOf(Ev(c), "message")
+Closed(c) == CountOf(Ev(c), "closed") > 0
+ClosedResult(c) == KindsOf(Ev(c), "closed")[1].v
+CleanCfg == MaxSwap = 0 /\ MaxInject = 0 /\ MaxTamper = 0 /\ MaxDup = 0
 
-\* C14: no state machine receives an input it has no transition for, no assertion fires
+\* C14: no state machine receives an input it has no transition for, no assertion fires,
+\*      and close never reports anything but a documented verdict
 NoInternalError == \A c \in Clients : cs[c].errs = <<>>
-\* ... and close never reports anything but a documented verdict
-Verdicts == {"happy", "LonelyError", "WrongPasswordError", "ServerError", "WelcomeError", "ServerConnectionError"}
-DocumentedVerdict == \A c \in Clients : Count1(c, "closed") > 0 => ClosedResult(c) \in Verdicts
+DocumentedVerdict == \A c \in Clients : DocumentedVerdictEv(Ev(c))
 
 \* C18: at most once each, causal order
-OnceEach == \A c \in Clients : \A k \in {"code", "key", "verifier", "versions", "closed"} : Count1(c, k) <= 1
-Before(c, k1, k2) == \A i, j \in 1..Len(cs[c].events) : (cs[c].events[i].k = k1 /\ cs[c].events[j].k = k2) => i < j
-CausalOrder == \A c \in Clients :
-    /\ Before(c, "code", "key") /\ Before(c, "key", "verifier")
-    /\ Before(c, "verifier", "versions") /\ Before(c, "verifier", "message")
-    /\ \A k \in {"code", "key", "verifier", "versions", "message"} : Before(c, k, "closed")
-    /\ (Count1(c, "key") > 0 => Count1(c, "code") > 0) /\ (Count1(c, "verifier") > 0 => Count1(c, "key") > 0)
-    /\ (Count1(c, "versions") > 0 => Count1(c, "verifier") > 0) /\ (Count1(c, "message") > 0 => Count1(c, "verifier") > 0)
-\* with an order-preserving server (no swap/dup/inject budget configured) versions precede messages
-VersionsFirst == (MaxSwap = 0 /\ MaxInject = 0 /\ MaxTamper = 0) => \A c \in Clients : Before(c, "versions", "message")
+OnceEach == \A c \in Clients : OnceEachEv(Ev(c))
+CausalOrder == \A c \in Clients : CausalOrderEv(Ev(c))
+VersionsFirst == (MaxSwap = 0 /\ MaxInject = 0 /\ MaxTamper = 0) => \A c \in Clients : VersionsFirstEv(Ev(c))
 
-\* C03: what one side receives is a prefix of what the other sent
-InOrderOnce == \A c \in Clients : Cardinality(Clients) = 2 => IsPrefix(Msgs(c), SentBy(Peer(c)))
+\* C03 (and C02's "never twice, never altered"): received is a prefix of what the peer sent
+InOrderOnce == Cardinality(Clients) = 2 => \A c \in Clients : InOrderOnceSeq(Msgs(c), SentBy(Peer(c)))
 
-\* C08: once, with the right verdict, server resources freed
-ClosedOnce == \A c \in Clients : Count1(c, "closed") <= 1
+\* C08: once, nothing after, right verdict, server resources freed
+ClosedOnce == \A c \in Clients : ClosedOnceEv(Ev(c))
+NothingAfter == \A c \in Clients : NothingAfterClosed(Ev(c))
+VerdictRight == \A c \in Clients : (Closed(c) /\ ClosedResult(c) \in Verdicts) =>
+    LET v == ClosedResult(c) IN
+    /\ (v = "happy" => bud.peerSeen[c])
+    /\ (v = "LonelyError" => bud.cause[c] = "app" /\ (CleanCfg => ~bud.seenAtCause[c]))
+    /\ (v = "WrongPasswordError" => bud.badSeen[c])
+    /\ (v = "ServerError" => bud.srvErrSeen[c])
+    /\ (v = "WelcomeError" => bud.welErrSeen[c])
+    /\ ((CleanCfg /\ bud.cause[c] = "app" /\ bud.seenAtCause[c]) => v = "happy")
 ServerFreedAtClose == \A c \in Clients :
-    (Count1(c, "closed") = 1 /\ ClosedResult(c) \in Verdicts \ {"ServerConnectionError"})
-       => (~SideHasClaim(srv, c) \/ cs[c].nameplate = "-") /\ ~net[c].up
-MoodMatches == \A c \in Clients : \A r \in srv.closes : r.side = c =>
-    (Count1(c, "closed") = 1 =>
-       r.mood = CASE ClosedResult(c) = "happy" -> "happy" [] ClosedResult(c) = "LonelyError" -> "lonely"
-                  [] ClosedResult(c) = "WrongPasswordError" -> "scary" [] ClosedResult(c) = "ServerError" -> "errory"
-                  [] ClosedResult(c) = "WelcomeError" -> "unwelcome" [] OTHER -> r.mood)
+    (Closed(c) /\ ClosedResult(c) \in Verdicts \ {"ServerConnectionError"})
+       => /\ (cs[c].nameplate # "-" => ~(srv.np[cs[c].nameplate].mb # "-" /\ srv.np[cs[c].nameplate].sides[c] = "claimed"))
+          /\ ~net[c].up
+          /\ (cs[c].mailbox # "-" /\ cs[c].st.M \in {"S4"} /\ \E r \in srv.closes : r.side = c) =>
+                 \E r \in srv.closes : r.side = c /\ r.mb = cs[c].mailbox /\ r.mood = MoodOf(ClosedResult(c))
+\* an explicitly opened mailbox is closed again before the closed notification
 
-\* C01/C02: only honest, correctly labelled ciphertexts are delivered; keys agree iff codes match
-KeyAgreement == \A c, d \in Clients : (c # d /\ Count1(c, "verifier") > 0 /\ Count1(d, "verifier") > 0)
-                   => EventsOf(c, "verifier")[1].v = EventsOf(d, "verifier")[1].v
-VerifiedImpliesSameCode == \A c \in Clients : Cardinality(Clients) = 2 /\ MaxInject = 0 =>
-    (Count1(c, "verifier") > 0 => (cs[c].code = cs[Peer(c)].code /\ cs[c].appid = cs[Peer(c)].appid))
-NoForgery == \A c \in Clients : Cardinality(Clients) = 2 =>
-    \A i \in 1..Len(Msgs(c)) : Msgs(c)[i] = "m:" \o Peer(c) \o ":" \o ToString(i - 1)
+\* C01/C02: keys agree iff codes match; only honest, correctly labelled ciphertexts are delivered
+KeyAgreement == \A c, d \in Clients : (c # d /\ CountOf(Ev(c), "verifier") > 0 /\ CountOf(Ev(d), "verifier") > 0)
+                   => ValuesOf(Ev(c), "verifier")[1] = ValuesOf(Ev(d), "verifier")[1]
+VerifiedImpliesSameCode == (Cardinality(Clients) = 2 /\ MaxInject = 0) => \A c \in Clients :
+    (CountOf(Ev(c), "verifier") > 0 => (cs[c].code = cs[Peer(c)].code /\ cs[c].appid = cs[Peer(c)].appid))
+MismatchSilent == Cardinality(Clients) = 2 /\ MaxInject = 0 => \A c \in Clients :
+    (cs[c].code # "-" /\ cs[Peer(c)].code # "-" /\ (cs[c].code # cs[Peer(c)].code \/ cs[c].appid # cs[Peer(c)].appid))
+       => CountOf(Ev(c), "verifier") = 0 /\ CountOf(Ev(c), "versions") = 0 /\ CountOf(Ev(c), "message") = 0
+NoForgery == InOrderOnce /\ \A c \in Clients : Cardinality(Clients) = 2 =>
+    \A i \in 1..CountOf(Ev(c), "versions") : ValuesOf(Ev(c), "versions")[i] = "ver:" \o Peer(c)
 
 \* liveness (checked only on the smallest constants, under FairSpec)
-CloseCompletes == \A c \in Clients : (bud.closeCalled[c] /\ ~bud.dead[c]) ~> (Count1(c, "closed") = 1)
+CloseCompletes == \A c \in Clients : (bud.closeCalled[c] /\ ~bud.dead[c]) ~> Closed(c)
 ====
